@@ -13,7 +13,7 @@ PROOF_AX = ("Coq 8.16.1 kernel incl. vm_compute (no native_compute); axioms per 
             "vector primitives; the vector primitives are model/Vec.v's, tied at cell level by C13); its output for EVERY function that parse_float "
             "executes (mask, extended_float, rounding, num, number, lemire, bellerophon, slow, bigint, parse: 66 definitions) and for the four "
             "shipped front-end copies is PROVED equal to the hand-written model (proofs/SrcEq*.v) and composed into rs_parse_float_correct "
-            "(proofs/SrcFinal.v); NOT translated: the unsafe bodies of stackvec.rs / heapvec.rs (cell-level model + history correspondence, C13), "
+            "(proofs/SrcFinal.v); the unsafe stack vector stackvec.rs is translated at cell level (raw pointers as accesses to a 62-cell buffer with explicit UB) and proved equal to the hand-written cell-level model (proofs/SrcEqStackVec.v, C13); NOT translated: heapvec.rs (calls std Vec; list-level model + history correspondence), "
             "libm.rs and the tables (dumped from the compiled crate and executed exhaustively); the correspondence harness (Rust runner vs "
             "extracted OCaml model, ExtrOcamlBasic only) runs the same model against the compiled code - that tie is "
             "differential testing, not proof; rustc/LLVM/hardware IEEE arithmetic modelled, not verified.")
@@ -87,7 +87,7 @@ P = {
  'C12': ('proof', 'Coq: induction over limb lists - value of the result = the operation on naturals, None <-> result does not fit (37 theorems) + bigint.rs regenerated as Gallina and proved equal to the model (28 theorems) + limb-for-limb correspondence on both back-ends',
          "Closed theorems (props/C12.v, no axioms) over the list-of-limbs model for every operation the property lists: small add/mul, large add, long/large mul, pow by 5/10 (135/27/table decomposition, on the regenerated tables, compact and non-compact), shifts, compare, normalise, bit length, hi64 + sticky flag, from_u64; for the fixed-capacity back-end failure is reported exactly when B64^62 <= exact result (normalised operands), and the state left behind by a failed small op is characterised. Hold for arbitrary build mode. Source tie: all 25 functions of bigint.rs are regenerated from the Rust text on every run (coq/gen/SrcBigint.v) and proved equal to the model functions these theorems are about (28 rs_*_eq theorems, u64 limbs, usize lengths, both back-ends; the vector primitives are model/Vec.v's). The model is also tied to the code by running both on carry-chain patterns at and one limb past capacity, both back-ends, release and checked builds, and against Python integers.", PROOF_AX),
  'C13': ('proof', 'Coq: refinement of a cell-level model of StackVec (62 MaybeUninit cells + u16 length, raw writes/copies/set_len with UB outcomes) to a bounded sequence, lifted to all histories by induction + history correspondence of both models with the code',
-         "Closed theorems (props/C13.v, no axioms): every operation of the safe API from a state satisfying the invariant (len <= 62, prefix initialised) returns Ok (never UB), preserves the invariant and yields the output and contents of the reference sequence; failed push/extend/resize leave the state unchanged; lifted to all finite histories from new() (fold over the op list), both build modes; eq/cmp agree with numeric comparison for normalised operands. The cell-level model itself is extracted and replayed against the real StackVec on every run (contents after every step), the list-level model against StackVec and HeapVec. Arbitrary-limb, arbitrary-length histories; the heap vector is covered at list level (never fails).", PROOF_AX),
+         "Closed theorems (props/C13.v, no axioms): every operation of the safe API from a state satisfying the invariant (len <= 62, prefix initialised) returns Ok (never UB), preserves the invariant and yields the output and contents of the reference sequence; failed push/extend/resize leave the state unchanged; lifted to all finite histories from new() (fold over the op list), both build modes; eq/cmp agree with numeric comparison for normalised operands. Source tie: every function of impl StackVec, Deref::deref and the pointer code of bigint::shl_limbs are regenerated as Gallina over the cell-level memory model on every run (coq/gen/SrcStackVec.v) and proved equal to this cell-level model (17 rs_sv_*_eq theorems; safe_* under the invariant alone). The cell-level model itself is extracted and replayed against the real StackVec on every run (contents after every step), the list-level model against StackVec and HeapVec. Arbitrary-limb, arbitrary-length histories; the heap vector is covered at list level (never fails).", PROOF_AX),
  'C14': ('proof', 'Coq: vm_compute over the regenerated tables (finite domain, forallb lifted by forallb_forall)',
          "Every table entry and on-demand power is re-dumped from the compiled crate on every run, translated to Coq and checked against its "
          "mathematical definition by the kernel (8 closed theorems, no axioms). Finite domain, so this is a proof about the data the code uses.",
